@@ -70,8 +70,9 @@ def obsStr : Obs → String
 /-! ### program from JSON -/
 
 structure BodySpec where
-  kind   : String := "prov"       -- prov | const | label
+  kind   : String := "prov"       -- prov | const | label | labels
   const  : Val := .none
+  seq    : List Val := []        -- kind = labels: the value of invocation `inv` is `seq[min inv (len-1)]`
   fails  : List (Nat × Nat × String) := []
   recurK : Nat := 0
   isRec  : Bool := false
@@ -107,6 +108,7 @@ def parseCfg (j : Json) : NodeCfg × BodySpec :=
   ({ name := getStrD j "name", attempts := getNat? j "attempts", delay := getNat? j "delay",
      exceptions := excs, useDefault := getBoolD j "use_default", mode := parseMode (getStrD j "mode" "coro") },
    { kind := getStrD body "kind" "prov", const := jVal ((body.getObjVal? "v").toOption.getD .null),
+     seq := (getArr body "v").toList.map jVal,
      fails := fails, recurK := (getNat? j "recur_k").getD 0, isRec := getBoolD j "is_rec",
      failHash := match j.getObjVal? "fail_hash" with
        | .ok (.arr #[a, b, c]) => match a.getNat?.toOption, b.getNat?.toOption, c.getStr?.toOption with
@@ -126,6 +128,7 @@ def bodyOf (cfg : NodeCfg) (b : BodySpec) (n : Node) (kw : Kwargs) (inv att : Na
     | none =>
     if b.isRec && inv < b.recurK then .ret (.recur (.str s!"it{inv}"))
     else if b.kind == "prov" then .ret (.str (prov cfg.name kw))
+    else if b.kind == "labels" then .ret ((b.seq[min inv (b.seq.length - 1)]?).getD .none)
     else .ret b.const
 
 def parseProgram (j : Json) : Except String Program := do
